@@ -245,6 +245,62 @@ FREEFORM = [('tinyssh_', 'TinySSH'), ('PuTTY_Release_', 'PuTTY'), ('lancom', 'LC
 DIG = ((48, 57),)
 
 
+class AuditHeader(Harness):
+    """the whole real audit(): a server sends header lines (symbolic printable text) before its identification string; the probes that follow reconnect several
+    times (each probe connection is answered with banner + KEXINIT and closed).  The report still shows exactly the header text of the first connection and the
+    banner parts - nothing done after the handshake may lose or alter them."""
+    prop, ob = PROP, 'O3'
+    width = 64
+
+    def __init__(self, nlines):
+        self.nlines = nlines
+        self.name = 'auditheader-%d' % nlines
+
+    def params(self):
+        return {'nlines': self.nlines}
+
+    def inputs(self):
+        return {'hdr': [zx.fresh_str('h%d' % i, 2, ((0x61, 0x7A),)) for i in range(self.nlines)], 'sw': zx.fresh_str('sw', 2, ((0x61, 0x7A),))}
+
+    def run(self, M, inp):
+        from vf import auditenv as AE
+        from props import outlib as OL
+        pre = b''
+        for h in inp['hdr']:
+            pre = pre + b'notice ' + h.encode('utf-8') + b'\r\n'
+        ban = pre + b'SSH-2.0-' + inp['sw'].encode('utf-8') + b'\r\n'
+        pk = AE.frame(AE.kexinit_payload(['curve25519-sha256', 'diffie-hellman-group-exchange-sha256'], ['ssh-ed25519', 'ssh-rsa'], ['aes128-ctr'], ['hmac-sha2-256']))
+        conns = [AE.Conn([ban, pk])] + [AE.Conn([ban, pk], 'close') for _ in range(14)]
+        if zx.active():
+            zx.cur().stdout = []
+        r = AE.run_audit(M, conns)
+        if isinstance(r['ret'], Exc):
+            return {'exc': r['ret']}
+        lines = r['lines']
+        flat = []
+        for ln in lines:
+            flat.extend(ln.split('\n'))
+        i0 = [i for i, ln in enumerate(flat) if OL._starts(ln, '(gen) header: ')]
+        hdr = None
+        if len(i0) == 1:
+            hdr = [flat[i0[0]][len('(gen) header: '):]] + flat[i0[0] + 1:i0[0] + self.nlines]
+        return {'hdr': hdr, 'nhdr': len(i0), 'banner': [ln for ln in flat if OL._starts(ln, '(gen) banner: ')], 'nprobe': len(r['net'].made) - 1}
+
+    def check(self, inp, obs):
+        if 'exc' in obs:
+            yield 'no-exception', False
+            return
+        yield 'probes-reconnected(reachability)', obs['nprobe'] >= 2
+        if self.nlines == 0:
+            yield 'no-header-line-without-header-text', obs['nhdr'] == 0
+        else:
+            ok = obs['nhdr'] == 1 and obs['hdr'] is not None and len(obs['hdr']) == self.nlines
+            if ok:
+                ok = s_and(*[g == 'notice ' + h for g, h in zip(obs['hdr'], inp['hdr'])])
+            yield 'header-text-as-sent-after-the-probes', ok
+        yield 'banner-as-sent-after-the-probes', len(obs['banner']) == 1 and bool(obs['banner'][0] == '(gen) banner: SSH-2.0-' + inp['sw'])
+
+
 class Product(Harness):
     """Software.parse: product, version and patch extracted from '<family><d..>.<d..>[patch]'."""
     prop, ob = PROP, 'O4'
@@ -361,6 +417,8 @@ def tasks(tier):
     for fam, prod in FREEFORM:
         for n in ((1, 3) if q else (0, 1, 2, 3, 4, 5)):
             T.append(FreeProduct(fam, n))
+    for n in ((0, 1, 2) if q else (0, 1, 2, 3)):
+        T.append(AuditHeader(n))
     return T
 
 
@@ -374,6 +432,8 @@ def harness_by_name(name, params):
         return Header(params['hlens'], params['eol'], params['split'], params.get('dom', 'any'))
     if k == 'product':
         return Product(params['fam'], params['shape'], params['npatch'])
+    if k == 'auditheader':
+        return AuditHeader(params['nlines'])
     if k == 'freeproduct':
         return FreeProduct(params['fam'], params['n'])
     raise KeyError(name)
